@@ -64,6 +64,10 @@ type Worker struct {
 	config  string
 	viol    *Violation
 	runHash uint64
+
+	// first race-class violation seen in any execution (race reports are not perfectly repeatable:
+	// the detector keeps a bounded access history per memory word)
+	anyRace *Violation
 }
 
 // NewWorker reads the worker environment (VERIF_OUT, VERIF_KNOWN, VERIF_TIER).
@@ -172,6 +176,12 @@ func (w *Worker) Violate(sig, detail string) (known bool) {
 	if w.viol == nil {
 		w.viol = &Violation{Property: w.Property, Signature: sig, Detail: detail, Step: len(w.steps)}
 		w.Note("VIOLATION %s: %s", sig, detail)
+		if strings.HasPrefix(sig, "race|") && w.anyRace == nil {
+			v := *w.viol
+			v.Steps = append([]string(nil), w.steps...)
+			v.Config = w.config
+			w.anyRace = &v
+		}
 	}
 	return false
 }
@@ -188,6 +198,9 @@ func (w *Worker) Pending() string {
 func (w *Worker) AttachRace(s string) {
 	if w.viol != nil {
 		w.viol.Race = s
+		if w.anyRace != nil && w.anyRace.Race == "" {
+			w.anyRace.Race = s
+		}
 	}
 }
 
@@ -246,6 +259,13 @@ func (w *Worker) Finish() {
 			v := *w.viol
 			v.Steps = append([]string(nil), w.steps...)
 			v.Config = w.config
+			res.Violation = &v
+			res.FailFile = newestFailFile()
+		} else if w.anyRace != nil {
+			// a race report is sound evidence even if the detector does not repeat it on the final replay
+			res.Status = "violation"
+			v := *w.anyRace
+			v.Detail = "[race report did not recur on the final minimised replay; this is the first execution that showed it] " + v.Detail
 			res.Violation = &v
 			res.FailFile = newestFailFile()
 		} else {
